@@ -465,14 +465,46 @@ def main(tier, replay=None):
     t_gen = time.time() - t0
     bad, logs = evaluate(cases)
     t_eval = time.time() - t0 - t_gen
+    # every failing case is split into single calls, and every failing call is classified:
+    # "known-like" (diamond hierarchy / the MISSING placeholder reached a hand-written constructor /
+    # a plain class defaults a bare key) or suspicious.  Suspicious calls come first.
+    singles, origin = [], []
+    for i, code in bad:
+        c = cases[i]
+        for cl in c["calls"]:
+            singles.append({"hier": c["hier"], "cls": c["cls"], "table": c["table"], "calls": [cl]})
+            origin.append(i)
+        singles.append({"hier": c["hier"], "cls": c["cls"], "table": c["table"], "calls": []})
+        origin.append(i)
+    sbad, slogs = evaluate(singles, tag="k") if singles else ([], [])
+    logs = logs + slogs
+    covered = {origin[j] for j, _ in sbad}
+    failing = [(singles[j], code) for j, code in sbad]
+    failing += [(cases[i], code) for i, code in bad if i not in covered]     # (cannot happen)
+
+    def known_like(case):
+        f = features(case)
+        return bool(f["diamond"] or f["bare_key_defaulted_by_plain_class"] or f.get("placeholder_to_hand_written"))
+    failing.sort(key=lambda fc: (known_like(fc[0]), -fc[1], len(json.dumps(fc[0]["hier"]))))
+    n_suspicious = len([1 for fc in failing if not known_like(fc[0])])
     reported = {}
     deadline = time.time() + (240 if tier == "quick" else 900)
-    tried = 0
-    for i, code in sorted(bad, key=lambda b: (-b[1], len(json.dumps(cases[b[0]]["hier"])))):
-        if len(reported) >= 8 or tried >= 20:
+    seen_cat = set()
+    for case1, code in failing:
+        suspicious = not known_like(case1)
+        if len(reported) >= 8:
             break
-        tried += 1
-        small = shrink(cases[i], code, deadline)
+        if not suspicious:
+            # one representative per known-looking category, briefly minimised
+            f1 = features(case1)
+            cat = ("diamond" if f1["diamond"] else
+                   "placeholder" if f1.get("placeholder_to_hand_written") else "bare_key")
+            if cat in seen_cat:
+                continue
+            seen_cat.add(cat)
+            small = shrink(case1, code, min(deadline, time.time() + 30))
+        else:
+            small = shrink(case1, code, deadline) if time.time() < deadline else case1
         feat = features(small)
         sig = dict(feat, code=code)
         key = json.dumps({k: v for k, v in sig.items() if k not in ("keywords", "classes")}, sort_keys=True)
@@ -517,6 +549,7 @@ def main(tier, replay=None):
         del s["table"]
     extra = {
         "correspondence": {"hierarchies": len(cases), "constructor_calls": ncalls, "disagreements": len(bad),
+                           "failing_calls": len(failing), "failing_calls_not_resembling_a_known_finding": n_suspicious,
                            "undefinable_hierarchies_skipped": undefined,
                            "generated_outside_grammar_skipped": len(OUTSIDE),
                            "shape_histogram": shape_hist, "outcome_histogram": err_hist,
